@@ -48,17 +48,19 @@ type Func struct {
 	Body   *ast.BlockStmt
 	Type   *ast.FuncType
 
-	g          *cfg.CFG
-	dom        [][]bool // dom[a][b]: block a dominates block b
-	blockFact  map[*cfg.Block][]Fact
-	nodeBlock  map[ast.Node]*cfg.Block
-	assigns    map[types.Object][]ast.Node // assignment sites per local object
-	litCount   int
-	locals     map[string]bool // names of receiver, parameters and locals (root functions only)
-	localTypes map[string][]types.Type
-	localObjs  map[string][]types.Object
-	sigma      *tableRow             // literal-table row under which row guards are currently viewed (e1_table.go)
-	extraGuard map[ast.Node]*Formula // per-node additional guards (e.g. `return cond` read as: return true under cond)
+	g               *cfg.CFG
+	dom             [][]bool // dom[a][b]: block a dominates block b
+	blockFact       map[*cfg.Block][]Fact
+	nodeBlock       map[ast.Node]*cfg.Block
+	assigns         map[types.Object][]ast.Node // assignment sites per local object
+	litCount        int
+	locals          map[string]bool // names of receiver, parameters and locals (root functions only)
+	localTypes      map[string][]types.Type
+	localObjs       map[string][]types.Object
+	sigma           *tableRow             // literal-table row under which row guards are currently viewed (e1_table.go)
+	extraGuard      map[ast.Node]*Formula // per-node additional guards (e.g. `return cond` read as: return true under cond)
+	entryGuards     *Formula              // closureEntryGuards memo
+	entryGuardsDone bool
 }
 
 // loadProg loads every package of the module found under dir.
